@@ -710,3 +710,738 @@ Definition ex_mins : list f64 := map of_bits [0; 0x3FD5555555555555; 0x3FE555555
 Ltac by_eval := vm_compute; reflexivity.
 Ltac ex_inD := split; [by_eval | split; [change 0%R with (val fzero) |]; apply fle_spec; by_eval].
 
+
+
+(* =========================================================================================== *)
+(** * Error analysis on the physically meaningful domain: 2^-1000 <= L <= 2^1000, 1 <= n <= 2^20.
+
+    With u = 2^-53 and s = fl(L/n): the index boundary k lies in (k*s*(1-2u), k*s] ([raw_idx_lt],
+    [raw_idx_ge]); the start points fl(k*s) are within a factor (1 +- u) of k*s; one float step changes a
+    positive (normal) float by a factor between (1+u) and (1+2u).  Hence the hypotheses [grid_hyps] hold
+    ([domain_grid_hyps]) and each of the constructor's four loops ends after at most 5 steps
+    ([lower_loops_terminate], [upper_loops_terminate]), which gives the unconditional
+    [grid_partition_domain]. *)
+From Coq Require Import Psatz.
+From Flocq.Prop Require Import Relative.
+Local Close Scope Z_scope.
+Local Open Scope R_scope.
+
+
+Definition uu : R := / 9007199254740992.   (* 2^-53 *)
+
+Lemma uu_bpow : bpow radix2 (-53) = uu.
+Proof. unfold uu. simpl. unfold Z.pow_pos. simpl. reflexivity. Qed.
+
+Lemma bpow_m52 : bpow radix2 (-52) = 2 * uu.
+Proof. unfold uu. simpl. unfold Z.pow_pos. simpl. lra. Qed.
+
+(** relative error of rounding in the normal range *)
+Lemma rel_RN : forall y, bpow radix2 (-1022) <= y -> y * (1 - uu) <= RN y <= y * (1 + uu).
+Proof.
+  intros y Hy.
+  assert (H0 : 0 < y) by (apply Rlt_le_trans with (2 := Hy); apply bpow_gt_0).
+  pose proof (relative_error_N_FLT radix2 (-1074) 53 eq_refl (fun x => negb (Z.even x)) y) as H.
+  change (-1074 + 53 - 1)%Z with (-1022)%Z in H. rewrite Rabs_pos_eq in H by lra. specialize (H Hy).
+  change (- (53) + 1)%Z with (-52)%Z in H. rewrite bpow_m52 in H.
+  change (round radix2 (FLT_exp (-1074) 53) (Znearest (fun x => negb (Z.even x))) y) with (RN y) in H.
+  apply Rabs_le_inv in H. lra.
+Qed.
+
+Notation RU := (round radix2 fexp64 Zceil).
+
+Lemma rel_RU : forall y, bpow radix2 (-1022) <= y -> y <= RU y <= y * (1 + 2 * uu).
+Proof.
+  intros y Hy.
+  assert (H0 : 0 < y) by (apply Rlt_le_trans with (2 := Hy); apply bpow_gt_0).
+  pose proof (relative_error_FLT radix2 (-1074) 53 eq_refl Zceil y) as H.
+  change (-1074 + 53 - 1)%Z with (-1022)%Z in H. rewrite Rabs_pos_eq in H by lra. specialize (H Hy).
+  change (- (53) + 1)%Z with (-52)%Z in H. rewrite bpow_m52 in H.
+  change (round radix2 (FLT_exp (-1074) 53) Zceil y) with (RU y) in H.
+  assert (Hge : y <= RU y).
+  { destruct (round_UP_pt radix2 fexp64 y) as [_ [H1 _]]. exact H1. }
+  apply Rabs_lt_inv in H. lra.
+Qed.
+
+Lemma fmt_IZR : forall k : Z, (Z.abs k < 2 ^ 53)%Z -> fmt (IZR k).
+Proof.
+  intros k Hk. change fexp64 with (FLT_exp (-1074) 53). apply generic_format_FLT.
+  apply (FLT_spec radix2 (-1074) 53 (IZR k) (Float radix2 k 0)).
+  - unfold F2R. simpl. lra.
+  - exact Hk.
+  - simpl. lia.
+Qed.
+
+Lemma fmt_bpow : forall e : Z, (-1074 <= e)%Z -> fmt (bpow radix2 e).
+Proof.
+  intros e He. apply generic_format_bpow. unfold SpecFloat.fexp, SpecFloat.emin. lia.
+Qed.
+
+Lemma IZR_lt_emax : forall k : Z, (Z.abs k < 2 ^ 53)%Z -> Rabs (IZR k) < bpow radix2 1024.
+Proof.
+  intros k Hk. rewrite <- abs_IZR. apply Rlt_trans with (IZR (2 ^ 53)). apply IZR_lt; exact Hk.
+  change (2 ^ 53)%Z with (radix2 ^ 53)%Z. rewrite IZR_Zpower by lia. apply bpow_lt. lia.
+Qed.
+
+Lemma of_Z_val : forall k : Z, (Z.abs k < 2 ^ 53)%Z -> ffinite (of_Z k) = true /\ val (of_Z k) = IZR k.
+Proof.
+  intros k Hk. unfold of_Z, ffinite.
+  generalize (binary_normalize_correct 53 1024 Hprec53 Hmax1024 mode_NE k 0 false).
+  cbv zeta. replace (F2R {| Fnum := k; Fexp := 0 |}) with (IZR k) by (unfold F2R; simpl; lra).
+  simpl round_mode. rewrite (RN_fmt (IZR k)) by (apply fmt_IZR; exact Hk).
+  rewrite Rlt_bool_true by (apply IZR_lt_emax; exact Hk).
+  intros [H1 [H2 _]]. split; assumption.
+Qed.
+
+Lemma uu_pos : 0 < uu. Proof. unfold uu. lra. Qed.
+Lemma uu_small : uu < / 1000000. Proof. unfold uu. lra. Qed.
+
+(** the index boundary k lies between k*s*(1-2u) and k*s *)
+Lemma raw_idx_ge : forall (s x : f64) (k : Z),
+  val s > 0 -> ffinite (fdiv x s) = true -> (0 <= k < 2 ^ 53)%Z ->
+  IZR k * val s <= val x -> (k <= raw_idx s x)%Z.
+Proof.
+  intros s x k Hs Fq Hk Hx. unfold raw_idx. rewrite py_int_Ztrunc, (fdiv_val x s) by (auto; lra).
+  rewrite <- (Ztrunc_IZR k). apply Ztrunc_le.
+  rewrite <- (RN_fmt (IZR k)) by (apply fmt_IZR; lia). apply RN_le.
+  apply Rmult_le_reg_r with (val s); [lra|]. unfold Rdiv. rewrite Rmult_assoc, Rinv_l by lra. lra.
+Qed.
+
+Lemma raw_idx_lt : forall (s x : f64) (k : Z),
+  val s > 0 -> 0 <= val x -> ffinite (fdiv x s) = true -> (1 <= k < 2 ^ 52)%Z ->
+  val x <= IZR k * val s * (1 - 2 * uu) -> (raw_idx s x < k)%Z.
+Proof.
+  intros s x k Hs Hx0 Fq Hk Hx. unfold raw_idx. rewrite py_int_Ztrunc, (fdiv_val x s) by (auto; lra).
+  pose proof uu_pos as Hu. pose proof uu_small as Hu'.
+  assert (Hk1 : 1 <= IZR k) by (apply IZR_le; lia).
+  set (y' := IZR k * (1 - 2 * uu)).
+  assert (Hq : val x / val s <= y').
+  { apply Rmult_le_reg_r with (val s); [lra|]. unfold Rdiv. rewrite Rmult_assoc, Rinv_l by lra. unfold y'. lra. }
+  assert (Hq0 : 0 <= val x / val s).
+  { unfold Rdiv. apply Rmult_le_pos; [lra|]. left. apply Rinv_0_lt_compat. lra. }
+  assert (Hy' : bpow radix2 (-1022) <= y').
+  { apply Rle_trans with (bpow radix2 (-1)). apply bpow_le; lia.
+    simpl bpow. unfold y'. nra. }
+  assert (Hr : RN (val x / val s) < IZR k).
+  { apply Rle_lt_trans with (RN y'). apply RN_le; exact Hq.
+    destruct (rel_RN y' Hy') as [_ H]. apply Rle_lt_trans with (1 := H). unfold y'. nra. }
+  assert (H0 : 0 <= RN (val x / val s)) by (rewrite <- RN_0 at 1; apply RN_le; exact Hq0).
+  rewrite Ztrunc_floor by exact H0. apply lt_IZR.
+  apply Rle_lt_trans with (2 := Hr). apply Zfloor_lb.
+Qed.
+
+(** one step down / up changes a float by a relative amount between u and 2u *)
+Lemma ulp_gt_u : forall r, 0 <= r -> r * uu < ulp radix2 fexp64 r.
+Proof.
+  intros r Hr. pose proof (ulp_FLT_gt radix2 (-1074) 53 r) as H.
+  rewrite Rabs_pos_eq in H by exact Hr. change (- (53))%Z with (-53)%Z in H. rewrite uu_bpow in H. exact H.
+Qed.
+
+Lemma pred_factor : forall r, 0 < r -> fmt r -> pred radix2 fexp64 r * (1 + uu) <= r.
+Proof.
+  intros r Hr Fr.
+  assert (H0 : 0 <= pred radix2 fexp64 r) by (apply pred_ge_0; auto with typeclass_instances).
+  pose proof (pred_plus_ulp radix2 fexp64 r Hr Fr) as H.
+  pose proof (ulp_gt_u _ H0). lra.
+Qed.
+
+Lemma succ_factor : forall r, 0 <= r -> r * (1 + uu) <= succ radix2 fexp64 r.
+Proof.
+  intros r Hr. rewrite succ_eq_pos by exact Hr. pose proof (ulp_gt_u r Hr). lra.
+Qed.
+
+Lemma pred_factor_lower : forall r, fmt r -> bpow radix2 (-1021) <= r -> r <= pred radix2 fexp64 r * (1 + 2 * uu).
+Proof.
+  intros r Fr Hr.
+  assert (Hpos : 0 < r) by (apply Rlt_le_trans with (2 := Hr); apply bpow_gt_0).
+  assert (Hp : bpow radix2 (-1022) <= pred radix2 fexp64 r).
+  { apply pred_ge_gt; auto with typeclass_instances. apply fmt_bpow; lia.
+    apply Rlt_le_trans with (2 := Hr). apply bpow_lt; lia. }
+  pose proof (pred_plus_ulp radix2 fexp64 r Hpos Fr) as H.
+  pose proof (ulp_FLT_le radix2 (-1074) 53 (pred radix2 fexp64 r)) as Hu.
+  change (-1074 + 53 - 1)%Z with (-1022)%Z in Hu.
+  assert (H0 : 0 <= pred radix2 fexp64 r) by (apply Rle_trans with (2 := Hp); apply bpow_ge_0).
+  rewrite Rabs_pos_eq in Hu by exact H0. specialize (Hu Hp).
+  change (1 - 53)%Z with (-52)%Z in Hu. rewrite bpow_m52 in Hu.
+  change (FLT_exp (-1074) 53) with fexp64 in Hu. lra.
+Qed.
+
+Lemma fpred_factor : forall x : f64, ffinite x = true -> 0 < val x -> val (fpred x) * (1 + uu) <= val x.
+Proof.
+  intros x Fx Hx. destruct (fpred_pos x Fx Hx) as [_ [H _]]. rewrite H.
+  apply pred_factor; [exact Hx | apply fmt_val].
+Qed.
+
+Lemma fpred_factor_lower : forall x : f64, ffinite x = true -> bpow radix2 (-1021) <= val x ->
+  val x <= val (fpred x) * (1 + 2 * uu).
+Proof.
+  intros x Fx Hx.
+  assert (Hpos : 0 < val x) by (apply Rlt_le_trans with (2 := Hx); apply bpow_gt_0).
+  destruct (fpred_pos x Fx Hpos) as [_ [H _]]. rewrite H.
+  apply pred_factor_lower; [apply fmt_val | exact Hx].
+Qed.
+
+Lemma fsucc_factor : forall x y : f64, ffinite x = true -> 0 <= val x -> val x < val y ->
+  val x * (1 + uu) <= val (fsucc x).
+Proof.
+  intros x y Fx Hx Hxy. destruct (fsucc_below x y Fx Hxy) as [_ [H _]]. rewrite H.
+  apply succ_factor; exact Hx.
+Qed.
+
+(** ** the physically meaningful domain *)
+Definition domain (L : f64) (n : Z) : Prop :=
+  ffinite L = true /\ bpow radix2 (-1000) <= val L <= bpow radix2 1000 /\ (1 <= n <= 2 ^ 20)%Z.
+
+Lemma bpow_21 : bpow radix2 21 = 2097152.
+Proof. simpl. unfold Z.pow_pos. simpl. reflexivity. Qed.
+
+Lemma IZR_pow20 : IZR (2 ^ 20) = 1048576. Proof. reflexivity. Qed.
+
+Lemma bpow_split : forall a b, bpow radix2 (a + b) = bpow radix2 a * bpow radix2 b.
+Proof. intros. apply bpow_plus. Qed.
+
+Lemma domain_side : forall L n, domain L n ->
+  ffinite (side L n) = true /\ bpow radix2 (-1020) <= val (side L n) <= bpow radix2 1000 /\
+  val L * (1 - uu) <= IZR n * val (side L n) <= val L * (1 + uu).
+Proof.
+  intros L n [FL [[HL1 HL2] Hn]].
+  assert (Hn1 : 1 <= IZR n) by (apply IZR_le; lia).
+  assert (Hn2 : IZR n <= 1048576) by (rewrite <- IZR_pow20; apply IZR_le; lia).
+  assert (HL0 : 0 < val L) by (apply Rlt_le_trans with (2 := HL1); apply bpow_gt_0).
+  destruct (of_Z_val n ltac:(lia)) as [Fn Vn].
+  set (r := val L / IZR n).
+  assert (Hnr : IZR n * r = val L) by (unfold r; field; lra).
+  assert (Hr1 : bpow radix2 (-1020) <= r).
+  { unfold r. apply Rmult_le_reg_r with (IZR n); [lra|]. unfold Rdiv. rewrite Rmult_assoc, Rinv_l by lra.
+    rewrite Rmult_1_r. apply Rle_trans with (2 := HL1).
+    replace (-1000)%Z with (-1020 + 20)%Z by lia. rewrite bpow_split.
+    apply Rmult_le_compat_l. apply bpow_ge_0. simpl bpow. lra. }
+  assert (Hr2 : r <= bpow radix2 1000).
+  { apply Rle_trans with (2 := HL2). unfold r. apply Rmult_le_reg_r with (IZR n); [lra|].
+    unfold Rdiv. rewrite Rmult_assoc, Rinv_l by lra. nra. }
+  assert (Hs1 : bpow radix2 (-1020) <= RN r).
+  { rewrite <- (RN_fmt (bpow radix2 (-1020))) by (apply fmt_bpow; lia). apply RN_le; exact Hr1. }
+  assert (Hs2 : RN r <= bpow radix2 1000).
+  { rewrite <- (RN_fmt (bpow radix2 1000)) by (apply fmt_bpow; lia). apply RN_le; exact Hr2. }
+  assert (Hrel : r * (1 - uu) <= RN r <= r * (1 + uu)).
+  { apply rel_RN. apply Rle_trans with (2 := Hr1). apply bpow_le; lia. }
+  unfold side, fdiv, ffinite.
+  generalize (Bdiv_correct 53 1024 Hprec53 Hmax1024 mode_NE L (of_Z n)).
+  rewrite Vn. fold r. simpl round_mode.
+  assert (H0 : 0 <= RN r) by (apply Rle_trans with (2 := Hs1); apply bpow_ge_0).
+  rewrite Rlt_bool_true.
+  2:{ rewrite Rabs_pos_eq by exact H0. apply Rle_lt_trans with (1 := Hs2). apply bpow_lt; lia. }
+  intros H. destruct (H ltac:(lra)) as [H1 [H2 _]]. rewrite H1. split; [rewrite H2; exact FL|]. split; [lra|].
+  pose proof uu_pos. pose proof uu_small.
+  assert (IZR n * (r * (1 - uu)) <= IZR n * RN r) by (apply Rmult_le_compat_l; lra).
+  assert (IZR n * RN r <= IZR n * (r * (1 + uu))) by (apply Rmult_le_compat_l; lra).
+  replace (IZR n * (r * (1 - uu))) with (val L * (1 - uu)) in * by (rewrite <- Hnr; ring).
+  replace (IZR n * (r * (1 + uu))) with (val L * (1 + uu)) in * by (rewrite <- Hnr; ring).
+  lra.
+Qed.
+
+Lemma fdiv_finite_small : forall x s : f64, 0 <= val x -> 0 < val s ->
+  val x <= bpow radix2 21 * val s -> ffinite x = true -> ffinite (fdiv x s) = true.
+Proof.
+  intros x s Hx Hs Hxs Fx. unfold fdiv, ffinite in *.
+  generalize (Bdiv_correct 53 1024 Hprec53 Hmax1024 mode_NE x s ltac:(lra)). simpl round_mode.
+  assert (Hq0 : 0 <= val x / val s).
+  { unfold Rdiv. apply Rmult_le_pos; [lra|]. left. apply Rinv_0_lt_compat. lra. }
+  assert (Hq : val x / val s <= bpow radix2 21).
+  { apply Rmult_le_reg_r with (val s); [lra|]. unfold Rdiv. rewrite Rmult_assoc, Rinv_l by lra. lra. }
+  rewrite Rlt_bool_true.
+  - intros [_ [H _]]. congruence.
+  - rewrite Rabs_pos_eq by (rewrite <- RN_0 at 1; apply RN_le; exact Hq0).
+    apply Rle_lt_trans with (bpow radix2 21).
+    rewrite <- (RN_fmt (bpow radix2 21)) by (apply fmt_bpow; lia). apply RN_le; exact Hq.
+    apply bpow_lt; lia.
+Qed.
+
+Lemma domain_top : forall L n, domain L n ->
+  ffinite (fpred L) = true /\ 0 <= val (fpred L) <= val L /\
+  ffinite (fdiv (fpred L) (side L n)) = true.
+Proof.
+  intros L n HD. pose proof HD as [FL [[HL1 HL2] Hn]].
+  assert (HL0 : 0 < val L) by (apply Rlt_le_trans with (2 := HL1); apply bpow_gt_0).
+  destruct (fpred_pos L FL HL0) as [F1 [_ V1]].
+  destruct (domain_side L n HD) as [Fs [[Hs1 Hs2] [Hns1 Hns2]]].
+  assert (Hs0 : 0 < val (side L n)) by (apply Rlt_le_trans with (2 := Hs1); apply bpow_gt_0).
+  split; [exact F1|]. split; [exact V1|].
+  apply fdiv_finite_small; auto; try lra.
+  assert (Hn2 : IZR n <= 1048576) by (rewrite <- IZR_pow20; apply IZR_le; lia).
+  assert (IZR n * val (side L n) <= 1048576 * val (side L n)) by (apply Rmult_le_compat_r; lra).
+  rewrite bpow_21. unfold uu in *. lra.
+Qed.
+
+Lemma bpow_20 : bpow radix2 20 = 1048576.
+Proof. simpl. unfold Z.pow_pos. simpl. reflexivity. Qed.
+
+Lemma ks_bounds : forall L n k, domain L n -> (1 <= k <= n - 1)%Z ->
+  let s := val (side L n) in let a := IZR k * s in
+  s <= a /\ a <= 1048576 * s /\ a * (1 + 2 * uu) < val L /\
+  bpow radix2 (-1020) <= a /\ a <= bpow radix2 1020.
+Proof.
+  intros L n k HD Hk s a. pose proof HD as [FL [[HL1 HL2] Hn]].
+  destruct (domain_side L n HD) as [Fs [[Hs1 Hs2] [Hns1 Hns2]]]. fold s in Hs1, Hs2, Hns1, Hns2.
+  assert (Hs0 : 0 < s) by (apply Rlt_le_trans with (2 := Hs1); apply bpow_gt_0).
+  assert (HL0 : 0 < val L) by (apply Rlt_le_trans with (2 := HL1); apply bpow_gt_0).
+  assert (Hk1 : 1 <= IZR k) by (apply IZR_le; lia).
+  assert (Hkn : IZR k <= IZR n - 1) by (rewrite <- minus_IZR; apply IZR_le; lia).
+  assert (Hn2 : IZR n <= 1048576) by (rewrite <- IZR_pow20; apply IZR_le; lia).
+  assert (H1 : s <= a) by (unfold a; nra).
+  assert (H2 : a <= IZR n * s - s) by (unfold a; nra).
+  assert (H3 : IZR n * s <= 1048576 * s) by nra.
+  split; [exact H1|]. split; [lra|]. split; [unfold uu in *; lra|]. split; [lra|].
+  apply Rle_trans with (1048576 * s); [lra|]. replace 1020%Z with (20 + 1000)%Z by lia.
+  rewrite bpow_split, bpow_20. nra.
+Qed.
+
+Lemma mult_round : forall m (x y : f64), ffinite x = true -> ffinite y = true ->
+  0 <= val x * val y <= bpow radix2 1020 ->
+  ffinite (Bmult m x y) = true /\ val (Bmult m x y) = round radix2 fexp64 (round_mode m) (val x * val y).
+Proof.
+  intros m x y Fx Fy [H0 H1]. unfold ffinite in *.
+  generalize (Bmult_correct 53 1024 Hprec53 Hmax1024 m x y).
+  rewrite Rlt_bool_true.
+  - intros [V [F _]]. rewrite F, Fx, Fy. auto.
+  - rewrite Rabs_pos_eq.
+    + apply Rle_lt_trans with (bpow radix2 1020); [|apply bpow_lt; lia].
+      rewrite <- (round_generic radix2 fexp64 (round_mode m) (bpow radix2 1020)) by (apply fmt_bpow; lia).
+      apply round_le; auto with typeclass_instances.
+    + rewrite <- (round_0 radix2 fexp64 (round_mode m)). apply round_le; auto with typeclass_instances.
+Qed.
+
+(** the constructor's start point fl(k * side) for a cell boundary 1 <= k <= n-1 *)
+Lemma start_point : forall L n k, domain L n -> (1 <= k <= n - 1)%Z ->
+  let s := side L n in let p := fmul (of_Z k) s in let a := IZR k * val s in
+  a * (1 - uu) <= val p <= a * (1 + uu) /\ inD (fpred L) p.
+Proof.
+  intros L n k HD Hk s p a. pose proof HD as [FL [[HL1 HL2] Hn]].
+  destruct (ks_bounds L n k HD Hk) as [B1 [B2 [B3 [B4 B5]]]]. fold s a in B1, B2, B3, B4, B5.
+  destruct (domain_side L n HD) as [Fs _]. fold s in Fs.
+  destruct (of_Z_val k ltac:(lia)) as [Fk Vk].
+  assert (Ha0 : 0 <= a) by (apply Rle_trans with (2 := B4); apply bpow_ge_0).
+  destruct (mult_round mode_NE (of_Z k) s Fk Fs) as [Fp Vp]. rewrite Vk; fold a; lra.
+  rewrite Vk in Vp. fold a in Vp. simpl round_mode in Vp. fold (fmul (of_Z k) s) in Fp, Vp. fold p in Fp, Vp.
+  assert (Hrel : a * (1 - uu) <= RN a <= a * (1 + uu)).
+  { apply rel_RN. apply Rle_trans with (2 := B4). apply bpow_le; lia. }
+  rewrite Vp. split; [exact Hrel|].
+  assert (HL0 : 0 < val L) by (apply Rlt_le_trans with (2 := HL1); apply bpow_gt_0).
+  split; [exact Fp|]. split.
+  - rewrite Vp. unfold uu in *. lra.
+  - apply val_le_pred; auto. rewrite Vp. unfold uu in *. lra.
+Qed.
+
+(** a float in cell k (1 <= k <= n-1): k * side rounded up *)
+Lemma cell_witness : forall L n k, domain L n -> (1 <= k <= n - 1)%Z ->
+  let s := side L n in let a := IZR k * val s in
+  exists w : f64, a <= val w <= a * (1 + 2 * uu) /\ inD (fpred L) w.
+Proof.
+  intros L n k HD Hk s a. pose proof HD as [FL [[HL1 HL2] Hn]].
+  destruct (ks_bounds L n k HD Hk) as [B1 [B2 [B3 [B4 B5]]]]. fold s a in B1, B2, B3, B4, B5.
+  destruct (domain_side L n HD) as [Fs _]. fold s in Fs.
+  destruct (of_Z_val k ltac:(lia)) as [Fk Vk].
+  assert (Ha0 : 0 <= a) by (apply Rle_trans with (2 := B4); apply bpow_ge_0).
+  destruct (mult_round mode_UP (of_Z k) s Fk Fs) as [Fp Vp]. rewrite Vk; fold a; lra.
+  rewrite Vk in Vp. fold a in Vp. simpl round_mode in Vp.
+  exists (Bmult mode_UP (of_Z k) s).
+  assert (Hrel : a <= RU a <= a * (1 + 2 * uu)).
+  { apply rel_RU. apply Rle_trans with (2 := B4). apply bpow_le; lia. }
+  rewrite Vp. split; [exact Hrel|].
+  assert (HL0 : 0 < val L) by (apply Rlt_le_trans with (2 := HL1); apply bpow_gt_0).
+  split; [exact Fp|]. split.
+  - rewrite Vp. lra.
+  - apply val_le_pred; auto. rewrite Vp. lra.
+Qed.
+
+Lemma side_pos : forall L n, domain L n -> 0 < val (side L n).
+Proof.
+  intros L n HD. destruct (domain_side L n HD) as [_ [[H _] _]].
+  apply Rlt_le_trans with (2 := H). apply bpow_gt_0.
+Qed.
+
+Lemma inD_fdiv_finite : forall L n x, domain L n -> inD (fpred L) x -> ffinite (fdiv x (side L n)) = true.
+Proof.
+  intros L n x HD [Fx Vx]. destruct (domain_top L n HD) as [_ [_ Ft]].
+  apply (fdiv_finite_le x (fpred L) (side L n)); auto. apply side_pos; exact HD.
+Qed.
+
+Lemma idx_ge_boundary : forall L n x k, domain L n -> inD (fpred L) x -> (0 <= k <= n - 1)%Z ->
+  IZR k * val (side L n) <= val x -> (k <= idx (side L n) n x)%Z.
+Proof.
+  intros L n x k HD Dx Hk Hx. pose proof HD as [_ [_ Hn]]. unfold idx.
+  apply Z.min_glb; [|lia]. apply raw_idx_ge; auto.
+  - apply Rlt_gt. apply side_pos; exact HD.
+  - apply inD_fdiv_finite; assumption.
+  - lia.
+Qed.
+
+Lemma idx_lt_boundary : forall L n x k, domain L n -> inD (fpred L) x -> (1 <= k <= n)%Z ->
+  val x <= IZR k * val (side L n) * (1 - 2 * uu) -> (idx (side L n) n x < k)%Z.
+Proof.
+  intros L n x k HD Dx Hk Hx. pose proof HD as [_ [_ Hn]]. unfold idx.
+  apply Z.le_lt_trans with (raw_idx (side L n) x); [apply Z.le_min_l|].
+  apply raw_idx_lt; auto.
+  - apply Rlt_gt. apply side_pos; exact HD.
+  - destruct Dx as [_ [H _]]. exact H.
+  - apply inD_fdiv_finite; assumption.
+  - lia.
+Qed.
+
+(** a float just above the boundary k*side has index exactly k *)
+Lemma idx_near_boundary : forall L n x k, domain L n -> inD (fpred L) x -> (1 <= k <= n - 1)%Z ->
+  IZR k * val (side L n) <= val x <= IZR k * val (side L n) * (1 + 2 * uu) ->
+  idx (side L n) n x = k.
+Proof.
+  intros L n x k HD Dx Hk [H1 H2].
+  assert (Hge : (k <= idx (side L n) n x)%Z) by (apply idx_ge_boundary; auto; lia).
+  destruct (Z.eq_dec k (n - 1)) as [He|Hne].
+  - assert (idx (side L n) n x <= n - 1)%Z by (unfold idx; apply Z.le_min_r). lia.
+  - assert (Hlt : (idx (side L n) n x < k + 1)%Z).
+    { apply idx_lt_boundary; auto; [lia|]. rewrite plus_IZR.
+      destruct (ks_bounds L n k HD Hk) as [B1 [B2 _]]. unfold uu in *. lra. }
+    lia.
+Qed.
+
+Lemma idx_le_below : forall L n x k, domain L n -> inD (fpred L) x -> (1 <= k <= n - 1)%Z ->
+  val x <= IZR k * val (side L n) * (1 + 2 * uu) -> (idx (side L n) n x <= k)%Z.
+Proof.
+  intros L n x k HD Dx Hk H2.
+  destruct (Z.eq_dec k (n - 1)) as [He|Hne].
+  - assert (idx (side L n) n x <= n - 1)%Z by (unfold idx; apply Z.le_min_r). lia.
+  - assert (Hlt : (idx (side L n) n x < k + 1)%Z).
+    { apply idx_lt_boundary; auto; [lia|]. rewrite plus_IZR.
+      destruct (ks_bounds L n k HD Hk) as [B1 [B2 _]]. unfold uu in *. lra. }
+    lia.
+Qed.
+
+Lemma inD_zero : forall L n, domain L n -> inD (fpred L) fzero.
+Proof.
+  intros L n HD. destruct (domain_top L n HD) as [_ [[H _] _]]. split; [reflexivity|]. simpl. lra.
+Qed.
+
+Theorem domain_grid_hyps : forall L n, domain L n -> grid_hyps L n.
+Proof.
+  intros L n HD. pose proof HD as [FL [HL Hn]].
+  destruct (domain_side L n HD) as [Fs _]. destruct (domain_top L n HD) as [Ftop [_ Ft]].
+  pose proof (side_pos L n HD) as Hs.
+  unfold grid_hyps. split; [lia|]. split; [exact Fs|]. split; [exact Hs|]. split; [exact Ftop|].
+  split; [exact Ft|]. intros i Hi. split; [|split].
+  - destruct (Z.eq_dec i 0) as [->|Hne].
+    + exists fzero. split. apply (inD_zero L n HD). apply idx_zero; auto. lia.
+    + destruct (cell_witness L n i HD ltac:(lia)) as [w [Hw Dw]]. exists w. split; [exact Dw|].
+      apply idx_near_boundary; auto. lia.
+  - intros Hi1. destruct (start_point L n i HD ltac:(lia)) as [Hp Dp].
+    destruct (ks_bounds L n i HD ltac:(lia)) as [B1 [B2 [_ [B4 _]]]].
+    assert (Ha : 0 < IZR i * val (side L n)) by (apply Rlt_le_trans with (2 := B4); apply bpow_gt_0).
+    unfold lower_start. split; [exact Dp|]. split.
+    + unfold uu in *. lra.
+    + apply idx_le_below; auto. lia. unfold uu in *. lra.
+  - intros Hi1. destruct (start_point L n (i + 1) HD ltac:(lia)) as [Hp Dp].
+    destruct (ks_bounds L n (i + 1) HD ltac:(lia)) as [B1 [B2 _]].
+    unfold upper_start. split; [exact Dp|].
+    apply idx_ge_boundary; auto. lia. rewrite plus_IZR in *. unfold uu in *. lra.
+Qed.
+
+(** ** termination of the stepping loops *)
+Lemma step_while_fuel : forall {X : Type} (Q : nat -> X -> Prop) (step : X -> X) (cond : X -> bool),
+  (forall x, Q O x -> cond x = false) ->
+  (forall k x, Q (S k) x -> cond x = true -> Q k (step x)) ->
+  forall k fuel x, (k < fuel)%nat -> Q k x -> exists r, step_while fuel step cond x = Some r.
+Proof.
+  intros X Q step cond H0 HS. induction k as [|k IH]; intros fuel x Hk Hq.
+  - destruct fuel as [|f]; [lia|]. simpl. rewrite (H0 x Hq). eauto.
+  - destruct fuel as [|f]; [lia|]. simpl. destruct (cond x) eqn:E; [|eauto].
+    apply IH; [lia|]. apply HS; assumption.
+Qed.
+
+Lemma pow1u_pos : forall k, 0 < (1 + uu) ^ k.
+Proof. intros. apply pow_lt. pose proof uu_pos. lra. Qed.
+
+Lemma idx_pos_val : forall L n x, domain L n -> inD (fpred L) x -> (1 <= idx (side L n) n x)%Z -> 0 < val x.
+Proof.
+  intros L n x HD [Fx [Vx _]] Hi. destruct (Rle_lt_or_eq_dec _ _ Vx) as [H|H]; [exact H|].
+  pose proof HD as [_ [_ Hn]].
+  rewrite (idx_zero (side L n) n x) in Hi; auto; try lia. apply side_pos; exact HD.
+Qed.
+
+Lemma inD_fpred : forall top x, inD top x -> 0 < val x -> inD top (fpred x).
+Proof.
+  intros top x [Fx [_ Vx]] Hx. destruct (fpred_pos x Fx Hx) as [F1 [_ V1]]. split; [exact F1|]. lra.
+Qed.
+
+Lemma bpow_m1020 : bpow radix2 (-1020) = 2 * bpow radix2 (-1021).
+Proof. replace (-1020)%Z with (1 + -1021)%Z by lia. rewrite bpow_split. simpl (bpow radix2 1). lra. Qed.
+
+Lemma lower_loops_terminate : forall L n i fuel, domain L n -> (1 <= i <= n - 1)%Z -> (6 <= fuel)%nat ->
+  exists r, lower_loops fuel next_float_up next_float_down (idx (side L n) n) i (lower_start (side L n) i) = Some r.
+Proof.
+  intros L n i fuel HD Hi Hfuel.
+  set (s := side L n). set (top := fpred L). set (a := IZR i * val s).
+  destruct (start_point L n i HD Hi) as [Hlo Dlo]. fold s a top in Hlo, Dlo.
+  destruct (ks_bounds L n i HD Hi) as [B1 [B2 [B3 [B4 B5]]]]. fold s a in B1, B2, B3, B4, B5.
+  assert (Ha : 0 < a) by (apply Rlt_le_trans with (2 := B4); apply bpow_gt_0).
+  pose proof (side_pos L n HD) as Hs. fold s in Hs.
+  destruct (domain_top L n HD) as [Ftop [_ Ft]]. fold s top in Ftop, Ft.
+  pose proof uu_pos as Hu.
+  (* phase 1 terminates *)
+  assert (T1 : exists r1, step_while fuel next_float_down (fun x => (idx s n x =? i)%Z) (lower_start s i) = Some r1).
+  apply (step_while_fuel (fun k x => inD top x /\ val x <= a * (1 - 2 * uu) * (1 + uu) ^ k)) with (k := 4%nat).
+  { intros x [Dx Hx]. simpl in Hx. apply Z.eqb_neq.
+    assert (idx s n x < i)%Z by (apply idx_lt_boundary; auto; try lia; try (fold s a; lra)). lia. }
+  { intros k x [Dx Hx] Hc. apply Z.eqb_eq in Hc.
+    assert (Hpos : 0 < val x) by (apply (idx_pos_val L n x HD Dx); fold s; lia).
+    split. apply inD_fpred; assumption.
+    pose proof (fpred_factor x (proj1 Dx) Hpos) as Hf. pose proof (pow1u_pos k) as Hc'.
+    apply Rmult_le_reg_r with (1 + uu); [lra|].
+    replace (a * (1 - 2 * uu) * (1 + uu) ^ k * (1 + uu)) with (a * (1 - 2 * uu) * ((1 + uu) * (1 + uu) ^ k)) by ring.
+    unfold next_float_down. simpl pow in Hx. lra. }
+  { lia. }
+  { split; [exact Dlo|]. unfold lower_start. fold s. simpl pow. unfold uu in *. lra. }
+  destruct T1 as [r1 E1].
+  (* where phase 1 stops *)
+  pose proof E1 as E1'.
+  apply (step_while_inv (fun y => inD top y /\ a * (1 - 2 * uu) <= val y * (1 + 2 * uu))) in E1'.
+  2:{ intros y [Dy Hy] Hc. apply Z.eqb_eq in Hc.
+      assert (Hgt : a * (1 - 2 * uu) < val y).
+      { destruct (Rle_or_lt (val y) (a * (1 - 2 * uu))) as [Hle|Hgt]; [|exact Hgt].
+        assert (idx s n y < i)%Z by (apply idx_lt_boundary; auto; try lia; try (fold s a; lra)). lia. }
+      assert (Hpos : 0 < val y) by (unfold uu in *; lra).
+      split. apply inD_fpred; assumption.
+      assert (Hn : bpow radix2 (-1021) <= val y).
+      { rewrite bpow_m1020 in B4. pose proof (bpow_gt_0 radix2 (-1021)). unfold uu in *. lra. }
+      pose proof (fpred_factor_lower y (proj1 Dy) Hn). unfold next_float_down. lra. }
+  2:{ split; [exact Dlo|]. unfold lower_start. fold s. unfold uu in *. lra. }
+  destruct E1' as [[D1 H1] _].
+  (* phase 2 terminates *)
+  destruct (cell_witness L n i HD Hi) as [w [Hw Dw]]. fold s a top in Hw, Dw.
+  assert (Iw : idx s n w = i) by (apply idx_near_boundary; auto).
+  assert (T2 : exists r, step_while fuel next_float_up (fun x => (idx s n x <? i)%Z) r1 = Some r).
+  apply (step_while_fuel (fun k x => inD top x /\ a <= val x * (1 + uu) ^ k)) with (k := 5%nat).
+  { intros x [Dx Hx]. simpl in Hx. apply Z.ltb_ge. apply idx_ge_boundary; auto. lia. fold s a. lra. }
+  { intros k x [Dx Hx] Hc. apply Z.ltb_lt in Hc.
+    assert (Hxw : val x < val w).
+    { destruct (Rle_or_lt (val w) (val x)) as [Hle|Hgt]; [|exact Hgt].
+      pose proof (idx_mono_D s top n w x Hs Ft Dw Dx Hle). lia. }
+    destruct (fsucc_below x w (proj1 Dx) Hxw) as [F1 [_ V1]].
+    split. { split; [exact F1|]. unfold next_float_up. destruct Dx as [_ ?]. destruct Dw as [_ ?]. lra. }
+    pose proof (fsucc_factor x w (proj1 Dx) (proj1 (proj2 Dx)) Hxw) as Hf. pose proof (pow1u_pos k) as Hc'.
+    unfold next_float_up. simpl pow in Hx.
+    apply Rle_trans with (1 := Hx). rewrite <- Rmult_assoc. apply Rmult_le_compat_r; lra. }
+  { lia. }
+  { split; [exact D1|]. destruct D1 as [_ [? _]]. simpl pow. unfold uu in *. lra. }
+  destruct T2 as [r E2].
+  exists r. unfold lower_loops, obind. fold s. rewrite E1. exact E2.
+Qed.
+
+Lemma upper_loops_terminate : forall L n i fuel, domain L n -> (0 <= i <= n - 2)%Z -> (6 <= fuel)%nat ->
+  exists r, upper_loops fuel next_float_up next_float_down (idx (side L n) n) i (upper_start (side L n) i) = Some r.
+Proof.
+  intros L n i fuel HD Hi Hfuel.
+  set (s := side L n). set (top := fpred L). set (b := IZR (i + 1) * val s).
+  assert (Hk : (1 <= i + 1 <= n - 1)%Z) by lia.
+  destruct (start_point L n (i + 1) HD Hk) as [Hup Dup]. fold s b top in Hup, Dup.
+  destruct (ks_bounds L n (i + 1) HD Hk) as [B1 [B2 [B3 [B4 B5]]]]. fold s b in B1, B2, B3, B4, B5.
+  assert (Hb : 0 < b) by (apply Rlt_le_trans with (2 := B4); apply bpow_gt_0).
+  pose proof (side_pos L n HD) as Hs. fold s in Hs.
+  destruct (domain_top L n HD) as [Ftop [_ Ft]]. fold s top in Ftop, Ft.
+  pose proof uu_pos as Hu.
+  destruct (cell_witness L n (i + 1) HD Hk) as [z [Hz Dz]]. fold s b top in Hz, Dz.
+  assert (Iz : idx s n z = (i + 1)%Z) by (apply idx_near_boundary; auto).
+  (* phase 1 terminates *)
+  assert (T1 : exists r1, step_while fuel next_float_up (fun x => (idx s n x =? i)%Z) (upper_start s i) = Some r1).
+  apply (step_while_fuel (fun k x => inD top x /\ b <= val x * (1 + uu) ^ k)) with (k := 2%nat).
+  { intros x [Dx Hx]. simpl in Hx. apply Z.eqb_neq.
+    assert (i + 1 <= idx s n x)%Z by (apply idx_ge_boundary; auto; try lia; try (fold s b; lra)). lia. }
+  { intros k x [Dx Hx] Hc. apply Z.eqb_eq in Hc.
+    assert (Hxz : val x < val z).
+    { destruct (Rle_or_lt (val z) (val x)) as [Hle|Hgt]; [|exact Hgt].
+      pose proof (idx_mono_D s top n z x Hs Ft Dz Dx Hle). lia. }
+    destruct (fsucc_below x z (proj1 Dx) Hxz) as [F1 [_ V1]].
+    split. { split; [exact F1|]. unfold next_float_up. destruct Dx as [_ ?]. destruct Dz as [_ ?]. lra. }
+    pose proof (fsucc_factor x z (proj1 Dx) (proj1 (proj2 Dx)) Hxz) as Hf. pose proof (pow1u_pos k) as Hc'.
+    unfold next_float_up. simpl pow in Hx.
+    apply Rle_trans with (1 := Hx). rewrite <- Rmult_assoc. apply Rmult_le_compat_r; lra. }
+  { lia. }
+  { split; [exact Dup|]. unfold upper_start. fold s. simpl pow. unfold uu in *. lra. }
+  destruct T1 as [r1 E1].
+  (* where phase 1 stops *)
+  pose proof E1 as E1'.
+  apply (step_while_inv (fun y => inD top y /\ val y <= b * (1 + 2 * uu))) in E1'.
+  2:{ intros y [Dy Hy] Hc. apply Z.eqb_eq in Hc.
+      assert (Hyz : val y < val z).
+      { destruct (Rle_or_lt (val z) (val y)) as [Hle|Hgt]; [|exact Hgt].
+        pose proof (idx_mono_D s top n z y Hs Ft Dz Dy Hle). lia. }
+      destruct (fsucc_below y z (proj1 Dy) Hyz) as [F1 [_ V1]].
+      split. { split; [exact F1|]. unfold next_float_up. destruct Dy as [_ ?]. destruct Dz as [_ ?]. lra. }
+      unfold next_float_up. lra. }
+  2:{ split; [exact Dup|]. unfold upper_start. fold s. unfold uu in *. lra. }
+  destruct E1' as [[D1 H1] _].
+  (* phase 2 terminates *)
+  assert (T2 : exists r, step_while fuel next_float_down (fun x => (idx s n x >? i)%Z) r1 = Some r).
+  apply (step_while_fuel (fun k x => inD top x /\ val x <= b * (1 - 2 * uu) * (1 + uu) ^ k)) with (k := 5%nat).
+  { intros x [Dx Hx]. simpl in Hx. rewrite Z.gtb_ltb. apply Z.ltb_ge.
+    assert (idx s n x < i + 1)%Z by (apply idx_lt_boundary; auto; try lia; try (fold s b; lra)). lia. }
+  { intros k x [Dx Hx] Hc. rewrite Z.gtb_ltb in Hc. apply Z.ltb_lt in Hc.
+    assert (Hpos : 0 < val x) by (apply (idx_pos_val L n x HD Dx); fold s; lia).
+    split. apply inD_fpred; assumption.
+    pose proof (fpred_factor x (proj1 Dx) Hpos) as Hf. pose proof (pow1u_pos k) as Hc'.
+    apply Rmult_le_reg_r with (1 + uu); [lra|].
+    replace (b * (1 - 2 * uu) * (1 + uu) ^ k * (1 + uu)) with (b * (1 - 2 * uu) * ((1 + uu) * (1 + uu) ^ k)) by ring.
+    unfold next_float_down. simpl pow in Hx. lra. }
+  { lia. }
+  { split; [exact D1|]. simpl pow. unfold uu in *. lra. }
+  destruct T2 as [r E2].
+  exists r. unfold upper_loops, obind. fold s. rewrite E1. exact E2.
+Qed.
+
+(** ** total correctness on the domain *)
+Lemma cell_min_total : forall L n i fuel, domain L n -> (0 <= i < n)%Z -> (6 <= fuel)%nat ->
+  exists r, cell_min fuel L n i = Some r.
+Proof.
+  intros L n i fuel HD Hi Hfuel. destruct (domain_side L n HD) as [Fs _].
+  destruct (Z.eq_dec i 0) as [->|Hne].
+  - destruct (cell_min_first fuel L n Fs) as [r [Hr _]]. eauto.
+  - unfold cell_min. destruct (start_point L n i HD ltac:(lia)) as [Hlo Dlo].
+    destruct (ks_bounds L n i HD ltac:(lia)) as [_ [_ [_ [B4 _]]]].
+    assert (Ha : 0 < IZR i * val (side L n)) by (apply Rlt_le_trans with (2 := B4); apply bpow_gt_0).
+    assert (G : fgt (lower_start (side L n) i) fzero = true).
+    { apply fgt_zero. exact (proj1 Dlo). unfold lower_start. unfold uu in *. lra. }
+    rewrite G. apply lower_loops_terminate; auto. lia.
+Qed.
+
+Lemma cell_max_total : forall L n i fuel, domain L n -> (0 <= i < n)%Z -> (6 <= fuel)%nat ->
+  exists r, cell_max fuel L n i = Some r.
+Proof.
+  intros L n i fuel HD Hi Hfuel. unfold cell_max.
+  destruct (Z.eqb_spec (i + 1) n) as [He|Hne]; [eauto|].
+  apply upper_loops_terminate; auto. lia.
+Qed.
+
+Lemma grid_extents_are_fibres : forall fuel (L : f64) (n : Z) (mn mx : Z -> f64),
+  grid_hyps L n ->
+  (forall i, (0 <= i < n)%Z -> cell_min fuel L n i = Some (mn i) /\ cell_max fuel L n i = Some (mx i)) ->
+  forall i, (0 <= i < n)%Z ->
+    is_fmin (side L n) (fpred L) n i (mn i) /\ is_fmax (side L n) (fpred L) n i (mx i).
+Proof.
+  intros fuel L n mn mx [Hn [Fs [Hs [Ftop [Ft Hall]]]]] Hret i Hi.
+  destruct (Hret i Hi) as [Hmin Hmax].
+  destruct (Hall i Hi) as [[w [Dw Hw]] [Hlo Hup]]. split.
+  - apply (cell_min_correct fuel L n i w (mn i)); auto.
+  - destruct (Z_lt_le_dec (i + 1) n) as [Hlt|Hge].
+    + destruct (Hall (i + 1)%Z ltac:(lia)) as [[z [Dz Hz]] _].
+      apply (cell_max_correct fuel L n i w z (mx i)); auto.
+      intros _. destruct (Hup Hlt) as [H1 H2]. repeat split; try apply H1; try apply Dz; auto. lia.
+    + apply (cell_max_correct fuel L n i w w (mx i)); auto. intros; lia.
+Qed.
+
+Definition opt_get (o : option f64) : f64 := match o with Some r => r | None => fzero end.
+
+(** For every box length 2^-1000 <= L <= 2^1000 and every 1 <= n <= 2^20 cells: the constructor's loops
+    terminate (within default_fuel = 64 steps; 6 suffice), the recorded extents are the least / greatest
+    floats of the cells, and they partition the floats of [0, pred L]. *)
+Theorem grid_partition_domain : forall (L : f64) (n : Z), domain L n ->
+  let s := side L n in let top := fpred L in
+  exists mn mx : Z -> f64,
+  (forall i, (0 <= i < n)%Z ->
+     cell_min default_fuel L n i = Some (mn i) /\ cell_max default_fuel L n i = Some (mx i) /\
+     is_fmin s top n i (mn i) /\ is_fmax s top n i (mx i)) /\
+  val (mn 0%Z) = 0 /\ mx (n - 1)%Z = fpred L /\
+  (forall i, (0 <= i)%Z -> (i + 1 < n)%Z ->
+     val (fsucc (mx i)) = val (mn (i + 1)%Z) /\ val (mn (i + 1)%Z) = succ radix2 fexp64 (val (mx i))) /\
+  (forall x, inD top x ->
+     (0 <= idx s n x < n)%Z /\
+     val (mn (idx s n x)) <= val x <= val (mx (idx s n x)) /\
+     (forall c, (0 <= c < n)%Z -> val (mn c) <= val x <= val (mx c) -> c = idx s n x)).
+Proof.
+  intros L n HD s top.
+  set (mn := fun i => opt_get (cell_min default_fuel L n i)).
+  set (mx := fun i => opt_get (cell_max default_fuel L n i)).
+  assert (Hret : forall i, (0 <= i < n)%Z ->
+            cell_min default_fuel L n i = Some (mn i) /\ cell_max default_fuel L n i = Some (mx i)).
+  { intros i Hi. unfold mn, mx.
+    destruct (cell_min_total L n i default_fuel HD Hi) as [r1 ->]. unfold default_fuel; lia.
+    destruct (cell_max_total L n i default_fuel HD Hi) as [r2 ->]. unfold default_fuel; lia.
+    simpl. auto. }
+  pose proof (domain_grid_hyps L n HD) as GH.
+  exists mn, mx. split.
+  - intros i Hi. destruct (Hret i Hi) as [H1 H2].
+    destruct (grid_extents_are_fibres default_fuel L n mn mx GH Hret i Hi) as [H3 H4]. auto.
+  - apply (grid_partition default_fuel L n mn mx GH Hret).
+Qed.
+
+(** monotonicity for positions of the box without any finiteness side condition *)
+Lemma idx_monotone_domain : forall L n x y, domain L n ->
+  ffinite x = true -> ffinite y = true -> 0 <= val x <= val y -> val y < val L ->
+  (idx (side L n) n x <= idx (side L n) n y)%Z.
+Proof.
+  intros L n x y HD Fx Fy Hxy HyL. pose proof HD as [FL _].
+  destruct (domain_top L n HD) as [_ [_ Ft]].
+  apply (idx_mono_D (side L n) (fpred L) n); auto.
+  - apply side_pos; exact HD.
+  - apply in_box_inD; auto. lra.
+  - apply in_box_inD; auto. lra.
+  - lra.
+Qed.
+
+(** the constructor's loops, total correctness on the domain *)
+Lemma extent_loops_domain : forall L n, domain L n ->
+  let s := side L n in let top := fpred L in
+  (forall i, (1 <= i <= n - 1)%Z -> exists r,
+     lower_loops default_fuel next_float_up next_float_down (idx s n) i (lower_start s i) = Some r /\
+     is_fmin s top n i r) /\
+  (forall i, (0 <= i <= n - 2)%Z -> exists r,
+     upper_loops default_fuel next_float_up next_float_down (idx s n) i (upper_start s i) = Some r /\
+     is_fmax s top n i r).
+Proof.
+  intros L n HD s top. pose proof (domain_grid_hyps L n HD) as [Hn [Fs [Hs [Ftop [Ft Hall]]]]].
+  fold s top in Fs, Hs, Ftop, Ft, Hall. split.
+  - intros i Hi. destruct (lower_loops_terminate L n i default_fuel HD Hi) as [r Hr]. unfold default_fuel; lia.
+    fold s in Hr. exists r. split; [exact Hr|].
+    destruct (Hall i ltac:(lia)) as [[w [Dw Hw]] [Hlo _]]. destruct (Hlo ltac:(lia)) as [Dlo [_ Ilo]].
+    apply (lower_loops_min s top n i default_fuel (lower_start s i) w r); auto; lia.
+  - intros i Hi. destruct (upper_loops_terminate L n i default_fuel HD Hi) as [r Hr]. unfold default_fuel; lia.
+    fold s in Hr. exists r. split; [exact Hr|].
+    destruct (Hall i ltac:(lia)) as [[w [Dw Hw]] [_ Hup]]. destruct (Hup ltac:(lia)) as [Dup Iup].
+    destruct (Hall (i + 1)%Z ltac:(lia)) as [[z [Dz Hz]] _].
+    apply (upper_loops_max s top n i default_fuel (upper_start s i) w z r); auto. lia.
+Qed.
+
+(** statements with the domain spelled out (used by Props/C16.v) *)
+Lemma grid_partition_lemma : forall (L : f64) (n : Z),
+  ffinite L = true -> bpow radix2 (-1000) <= val L <= bpow radix2 1000 -> (1 <= n <= 2 ^ 20)%Z ->
+  let s := side L n in let top := fpred L in
+  exists mn mx : Z -> f64,
+  (forall i, (0 <= i < n)%Z ->
+     cell_min default_fuel L n i = Some (mn i) /\ cell_max default_fuel L n i = Some (mx i) /\
+     is_fmin s top n i (mn i) /\ is_fmax s top n i (mx i)) /\
+  val (mn 0%Z) = 0 /\ mx (n - 1)%Z = fpred L /\
+  (forall i, (0 <= i)%Z -> (i + 1 < n)%Z ->
+     val (fsucc (mx i)) = val (mn (i + 1)%Z) /\ val (mn (i + 1)%Z) = succ radix2 fexp64 (val (mx i))) /\
+  (forall x, inD top x ->
+     (0 <= idx s n x < n)%Z /\
+     val (mn (idx s n x)) <= val x <= val (mx (idx s n x)) /\
+     (forall c, (0 <= c < n)%Z -> val (mn c) <= val x <= val (mx c) -> c = idx s n x)).
+Proof. intros L n H1 H2 H3. apply grid_partition_domain. repeat split; tauto || lia. Qed.
+
+Lemma extent_loops_lemma : forall (L : f64) (n : Z),
+  ffinite L = true -> bpow radix2 (-1000) <= val L <= bpow radix2 1000 -> (1 <= n <= 2 ^ 20)%Z ->
+  let s := side L n in let top := fpred L in
+  (forall i, (1 <= i <= n - 1)%Z -> exists r,
+     lower_loops default_fuel next_float_up next_float_down (idx s n) i (lower_start s i) = Some r /\
+     is_fmin s top n i r) /\
+  (forall i, (0 <= i <= n - 2)%Z -> exists r,
+     upper_loops default_fuel next_float_up next_float_down (idx s n) i (upper_start s i) = Some r /\
+     is_fmax s top n i r).
+Proof. intros L n H1 H2 H3. apply extent_loops_domain. repeat split; tauto || lia. Qed.
+
+Lemma idx_monotone_box_lemma : forall (L : f64) (n : Z) (x y : f64),
+  ffinite L = true -> bpow radix2 (-1000) <= val L <= bpow radix2 1000 -> (1 <= n <= 2 ^ 20)%Z ->
+  ffinite x = true -> ffinite y = true -> 0 <= val x <= val y -> val y < val L ->
+  (idx (side L n) n x <= idx (side L n) n y)%Z.
+Proof. intros L n x y H1 H2 H3. apply idx_monotone_domain. repeat split; tauto || lia. Qed.
+
+Lemma domain_example : domain fone 3.
+Proof.
+  split; [reflexivity|]. split; [|lia]. change (val fone) with (val Bone).
+  rewrite Bone_correct. change 1 with (bpow radix2 0). split; apply bpow_le; lia.
+Qed.
